@@ -385,8 +385,16 @@ impl ArrayImpl {
         use BinaryOperator::*;
         // The NULL literal has a type of its own: it takes the type of the other operand
         // (`NULL AND false` is still FALSE), and an operation on two of them yields NULL.
+        // (Static typing agrees: arithmetic on it is of the NULL type, a predicate is BOOLEAN.)
+        let arithmetic = matches!(op, Plus | Minus | Multiply | Divide | Modulo);
         match (self, other) {
-            (A::Null(_), A::Null(_)) => return Ok(self.clone()),
+            (A::Null(a), _) | (_, A::Null(a)) if arithmetic => {
+                return Ok(Self::new_null((0..a.len()).map(|_| None::<()>).collect()));
+            }
+            (A::Null(a), A::Null(_)) => {
+                let nulls = Self::new_bool((0..a.len()).map(|_| None::<bool>).collect());
+                return nulls.binary_op(op, &nulls);
+            }
             (A::Null(a), _) => return Self::nulls_like(a.len(), other).binary_op(op, other),
             (_, A::Null(b)) => return self.binary_op(op, &Self::nulls_like(b.len(), self)),
             _ => {}
